@@ -106,7 +106,7 @@ func c03Scenario(c *fw.Ctx, s int) {
 			return
 		}
 		// a topic shared by all sessions: one message, several recipients, each with its own granted QoS
-		if err := cc.Sub1("c03/all", subQos[i]); err != nil {
+		if err := cc.Sub1("_default/all", subQos[i]); err != nil {
 			c.Inconclusive("subscribe: " + err.Error())
 			return
 		}
@@ -172,7 +172,7 @@ func c03Scenario(c *fw.Ctx, s int) {
 				continue
 			}
 			sharedSent = true
-			topic = "c03/all"
+			topic = "_default/all" // begins with the mount point's own name
 		}
 		if acked, err := pub.Publish(topic, []byte(m.tag), 1, false, kit.DefaultWait); !acked {
 			c.Inconclusive(fmt.Sprintf("scenario %d: publish not acknowledged: %v", s, err))
